@@ -9,7 +9,8 @@ import json, os, random
 from vlib import *
 from chk_chanconc import PLATFORM_WRAPS, run_many, concat, exec_of
 
-RULES = {"FrameIdInvalid", "FrameIdNotIncreasing", "FrameWithoutTrigger", "FrameIdBeyondTriggers", "FrameIdBeyondGenerated", "StopDidNotReturn",
+RULES = {"FrameIdInvalid", "FrameIdNotIncreasing", "FrameWithoutTrigger", "FrameWithoutTriggerAfterEnable", "FrameIdBeyondTriggers",
+         "FrameIdBeyondGenerated", "StopDidNotReturn",
          "FrameCallNotReleased", "HangOther"}
 # C17 clauses SimCamStreamObs also evaluates on these executions (a camera re-configured while a frame call is pending);
 # they are judged by the C17 check (chk_simcam_cfg.py calls reshape_family below), not by C18
@@ -43,6 +44,32 @@ def gen_config(rng, out, reshape=False):
     trig = 1 if rng.random() < 0.6 else 0
     lines += ["kind %d" % rng.choice([0, 1, 2, 2]), "trig %d" % trig, "caller %d" % rng.randint(1, 5)]
     ctl = []
+    if not reshape and rng.random() < 0.2:
+        # re-gating: the camera runs freely (a trigger may be fired meanwhile, or the trigger was on and is switched off),
+        # some frames are taken, then the trigger is enabled while no frame call is in progress: from then on one trigger
+        # per frame, but for the exposure in flight
+        first = rng.random() < 0.3
+        lines[-2:] = ["trig %d" % (1 if first else 0), "caller %d" % rng.randint(4, 8)]
+        ctl = ["start"]
+        if first:
+            ctl += ["trigger"] * rng.randint(0, 2) + ["yield", str(rng.choice([0, 5, 30])), "settrig", "0"]
+        for _ in range(rng.randint(0, 2)):
+            ctl += ["trigger", "yield", str(rng.choice([0, 1, 5, 20, 60]))]
+        if rng.random() < 0.7:
+            ctl += ["waitframes", str(rng.randint(1, 3))]
+        if rng.random() < 0.5:
+            ctl += ["trigger"]
+        ctl += ["yield", str(rng.choice([0, 3, 20, 80])), "pause", "mark", "settrig", "1", "resume", "yield", str(rng.choice([20, 60, 150]))]
+        if rng.random() < 0.7:
+            # the streamer (thread 2 in the first run) lags from the mark on: an exposure in flight stays in flight until
+            # the caller has asked for a frame again
+            lines.append("window ctl_mark 0 2 %d x" % rng.choice([15, 40, 100]))
+        for _ in range(rng.randint(0, 2)):
+            ctl += ["trigger", "yield", str(rng.choice([5, 40]))]
+        ctl += ["stop"]
+        lines.append("ctl " + " ".join(ctl))
+        lines.append("out " + out)
+        return "\n".join(lines) + "\n"
     for run in range(rng.randint(1, 3)):
         # re-configuration while stopped: any number of trigger toggles (incl. off-and-on-again) before the next start
         if reshape and rng.random() < 0.4:
